@@ -121,10 +121,10 @@ def _wrap(node, i, index, ctx):
         if metadata is not None:
             for m in metadata:
                 if isinstance(m, dict) and 'id' in m:
-                    mids.append(m['id'])
+                    mids.append((m['id'], 'ref' in m))
                 else:
                     ctx["nonflat"].append((i, repr(metadata)[:200]))
-                    mids.append(-1)
+                    mids.append((999999, False))
         ctx["log"].append((ctx["depth"], index.get(id(who), -1), i, x, mids))
         ctx["depth"] += 1
         try:
@@ -267,7 +267,7 @@ def coq_obs(obs):
     for o in obs:
         calls = "[" + "; ".join(
             "{| e_depth := %d; e_src := %d; e_dst := %d; e_val := %s; e_md := %s |}" %
-            (d, s, t, coq_val(x), coq_natlist([m if m >= 0 else 999999 for m in mids]))
+            (d, s, t, coq_val(x), coq_md(mids))
             for (d, s, t, x, mids) in o["calls"]) + "]"
         out.append("{| o_calls := %s; o_raised := %s; o_counts := %s; o_fired := %s |}" %
                    (calls, "true" if o["raised"] else "false",
@@ -365,6 +365,10 @@ class Gen:
                  "zip_latest", "sink", "sink"]
         if self.allow:
             kinds = [k for k in kinds if k in self.allow]
+        if self.faults == "direct":
+            # C16 speaks about directly connected (non-buffered) pipelines; partition is a coroutine
+            # node that needs an event loop and captures exceptions in its future
+            kinds = [k for k in kinds if k != "partition"]
         attempts = 0
         while len(nodes) < target and attempts < 200:
             attempts += 1
